@@ -31,8 +31,12 @@ open Facts.C19 in
 theorem facts_codes : Facts.C19.invalidArgs = -32602 ∧ Facts.C19.methodNotFound = -32601 ∧
     Facts.C19.noHandlerCode = -32601 := by decide
 
-/-- every `raise` in `handler_invocation` carries one of the two codes (which one in which
-    situation is fixed behaviourally by `noHandlerCode` above and by `facts_probes` below) -/
+/-- every exception OBSERVED leaving the real `handler_invocation` over the probe grid (all
+    signatures with <= 2 parameters x all call shapes, no handler, a few larger calls) is an
+    `RPCError` carrying one of the two codes (an exception of another class would show as code 1);
+    which code in which situation is fixed by `noHandlerCode` above and by `facts_probes` below.
+    `raise` statements no probe reached are listed in the facts (`unexercised_raises`), not here:
+    they are not behaviour. -/
 theorem facts_raise_codes :
     ∀ c ∈ Facts.C19.raiseCodes, c = Facts.C19.methodNotFound ∨ c = Facts.C19.invalidArgs := by
   decide
